@@ -316,7 +316,7 @@ func checkCmd(opts *RunOpts, args []string) int {
 	witnessCache := map[string]bool{}
 	var unsatCore []string
 	cexCache := map[string]*Cex{}
-	var cov_order, cov_rel, cov_neg, cov_q, cov_d, cov_f, cov_w, cov_su, cov_c, cov_s map[string]any
+	var cov_order, cov_rel, cov_neg, cov_q, cov_d, cov_f, cov_w, cov_su, cov_c, cov_s, cov_t map[string]any
 
 	for _, res := range run.Results {
 		if res.Trusted {
@@ -565,6 +565,15 @@ func checkCmd(opts *RunOpts, args []string) int {
 		}
 		cov_su = cv
 	}
+	if run.TRan {
+		_, vl, cv := boundedListVerdict(opts, prop, known, "bounded.tracers.stream", "none.txt", run.TFailing, run.TTotal,
+			"states A, B (Multi), C (Removes A); every history of up to 3 mutations over Add/Remove/Set of each state, Add{A,B}, CanAdd{C}; variants: no handlers, struct-bound final handlers returning values, vetoing CEnter; two tracers bound",
+			"", "break the tracer stream (Init, Start, [Finals], End once and in order per transition, no interleaving, time-before = previous time-after, canceled and check-only ones report no change, last time-after = final machine time, both tracers see the same)", nil)
+		if vl != "" {
+			violations = append(violations, vl)
+		}
+		cov_t = cv
+	}
 	if run.SRan {
 		_, vl, cv := boundedListVerdict(opts, prop, known, "bounded.handlers.sequence", "none.txt", run.SFailing, run.STotal,
 			"states A, B and the Multi state M with a handler bound for every handler name; every history of up to 2 mutations over Add/Remove/Set of each state and Add{A,M}",
@@ -680,6 +689,9 @@ func checkCmd(opts *RunOpts, args []string) int {
 	}
 	if cov_rel != nil {
 		cov["bounded_relations_standin"] = cov_rel
+	}
+	if cov_t != nil {
+		cov["bounded_tracer_standin"] = cov_t
 	}
 	if cov_s != nil {
 		cov["bounded_handler_sequence_standin"] = cov_s
